@@ -6,7 +6,7 @@ package config
 
 //@ type Config guarded_by mutex: properties, fileRefSet, values
 // an app's value table and its file-reference table are created together (Define, Set)
-//@ type Config invariant forallstr(a, imp(len(self.values[a]) != 0, self.fileRefSet[a] != nil))
+//@ type Config invariant forallstr(a, imp(self.values[a] != nil, self.fileRefSet[a] != nil))
 //@ type Config invariant imp(len(self.values) != 0, self.fileRefSet != nil)
 
 // Config.Get converts the stored value to the requested data type (trusted; C25/C13 look inside).
